@@ -31,7 +31,7 @@ def small_sp(rng):
 
 class Engine(EngineBase):
     def budget(self, tier):
-        return (420, 50.0) if tier == "quick" else (16000, 900.0)
+        return (600, 55.0) if tier == "quick" else (16000, 900.0)
 
     def rule(self):
         return ("seeded scenario = pre-state (1-2 projects, 1-4 jobs with document + nested marker files, "
